@@ -7765,6 +7765,37 @@ def jobs_list_validity(tier):
     return [(h_list_validity, a, 1800) for a in q]
 
 
+def _window_replay(cls, n, view):
+    """native witnesses for the window harnesses: a window that obeys the rules behind a prefix that does not (and one that breaks them behind a
+    harmless prefix); -> (violated?, text, payload)"""
+    runs = []
+    for poisoned in (True, False):
+        pre = [9] * view if poisoned else [0] * view
+        if cls == 'ListArray64':
+            starts = pre + [k for k in range(n)]
+            stops = ([1] * view if poisoned else [0] * view) + [k + 1 for k in range(n)]
+            if not poisoned and n:
+                starts[view], stops[view] = 5, 1            # start > stop inside the window
+            head = 'i64 %s list64 %d %s %s ' % (fullnative.ints(range(max(n, 1))), view + n, ' '.join(map(str, starts)), ' '.join(map(str, stops)))
+        elif cls in ('IndexedArray64', 'IndexedOptionArray64'):
+            idx = ([99] * view if poisoned else [0] * view) + [k % max(n, 1) for k in range(n)]
+            if not poisoned and n:
+                idx[view] = 77                              # beyond the content inside the window
+            head = 'i64 %s %s %s ' % (fullnative.ints(range(max(n, 1))), 'option64' if 'Option' in cls else 'indexed64', fullnative.ints(idx))
+        else:
+            tags = pre + [k % 2 for k in range(n)]
+            if not poisoned and n:
+                tags[view] = 9                              # no such content inside the window
+            head = 'i64 2 0 1 i64 2 5 6 union8_64 %d %s %s 2 ' % (view + n, ' '.join(map(str, tags)), ' '.join('0' for _ in tags))
+        prog = head + 'rangeof %d %d validity' % (view, view + n)
+        want_bad = (not poisoned) and n > 0
+        kind_, got = fullnative.akrun(prog)
+        runs.append(dict(program=prog, native=[kind_, got], window_invalid=want_bad))
+        if kind_ != 'OK' or bool(got) != want_bad:
+            return True, '%s, entries %d..%d of its buffers (%s): the window is %s, the native check says %s %r' % (cls, view, view + n, prog, 'invalid' if want_bad else 'valid', kind_, str(got)[:120]), dict(runs=runs)
+    return False, 'native check agrees on both witnesses', dict(runs=runs)
+
+
 @guard
 def h_window_validity(cls, n, view):
     """validityerror of a ListArray64 / IndexedArray64 / IndexedOptionArray64 whose index buffers are windows (starting `view` entries in) of
@@ -7851,15 +7882,99 @@ def h_window_validity(cls, n, view):
             obls.append(('negative entries are %s' % ('allowed (missing values)' if want_opt else 'not allowed'), z3.And(g, io != z3.BitVecVal(want_opt, 1))))
     for pc, n_ in zip(asked, asked_len):
         obls.append(('what the content says about itself is the answer', z3.And(pc, z3.Not(out.raised), ln != n_)))
-    return mdischarge(nc.m, '%s::validityerror %d entries, index window starting at %d' % (cls, n, view), obls, [], replay=None,
+    return mdischarge(nc.m, '%s::validityerror %d entries, index window starting at %d' % (cls, n, view), obls, [], replay=(lambda model, ent: _window_replay(cls, n, view)),
                       extra=dict(bounds='%d entries (case split), index buffers windows %d entries into their buffers; entries and content length symbolic; the rule kernel is a stub that finds nothing (its verdicts are the C11 kernel harnesses\' subject)' % (n, view)))
+
+
+@guard
+def h_union_validity(n, view, ncontents=2):
+    """UnionArray8_64::validityerror with tags and index that are windows (starting `view` entries in) of longer buffers: the rule kernel is handed
+    the windows, the number of entries, the number of contents and the length of every content in order; when it finds nothing every content is
+    asked about itself and the first complaint (here: none) is the answer"""
+    nc = NodeCtx(['UNI', 'CNT', 'IDX', 'UTL', 'KD', 'IDS'], [], unwind=max(16, 2 * n + view + 4 * ncontents + 12))
+    nc.m.eng.stubs.update(nodeh.STRING_LENGTH_STUBS)
+    ss_ = string_stubs(nc)
+    nc.m.eng.stubs.update({k_: ss_[k_] for k_ in ('memcmp', 'bcmp')})
+    nc.m.eng.stubs['_ZNK7awkward7Content16parameter_equalsERKNSt7__cxx1112basic_stringIcSt11char_traitsIcESaIcEEES8_'] = lambda eng, fr, ins, st, name, argv: z3.BitVecVal(0, 1)
+    nc.m.eng.stubs['_ZN7awkward4util16parameter_equalsE*'] = lambda eng, fr, ins, st, name, argv: z3.BitVecVal(0, 1)
+    nc.m.eng.stubs['vf$slot%d' % nc.slot('9classnameB5cxx11Ev')] = nodeh.s_some_string
+    nc.m.eng.stubs['_ZNK7awkward7Content24validityerror_parametersE*'] = nodeh.s_empty_string
+    asked, seen = [], []
+    kk = z3.BitVec('k!', 64)
+    BASE = 1 << 32
+    ptrs, lens = [nc.content0], [nc.lencontent]
+    nc.m.assume(nc.lencontent >= 0, nc.lencontent <= 2 ** 20)
+    for k in range(1, ncontents):
+        ln = nc.m.bv('lencontent_v%d' % k)
+        nc.m.assume(ln >= 0, ln <= 2 ** 20)
+        ptrs.append(nc.new_content_in(nc.m.mem, 'content_v%d' % k, ln, z3.Lambda([kk], kk + k * BASE), const=True)); lens.append(ln)
+    names = ['content0'] + ['content_v%d' % k for k in range(1, ncontents)]
+
+    def s_content_validity(eng, fr, ins, st, name, argv):
+        objs = [q.obj for g, q in nodeh.ptr_cases(argv[1]) if q.obj is not None]
+        asked.append((st.pc, objs[0] if len(objs) == 1 else None))
+        return nodeh.s_empty_string(eng, fr, ins, st, name, argv)
+
+    def s_kernel(eng, fr, ins, st, name, argv):
+        sret, tags_, index_, length, numc, lenc = argv
+        lcs = []
+        for k in range(ncontents):
+            try:
+                lcs.append(eng.load(st, Ptr(lenc.obj, lenc.off + (8 * k if isinstance(st.mem.o[lenc.obj], nodeh.RecObj) else k)), 'i64', fr.mod, 'stub'))
+            except Exception:      # noqa
+                lcs.append(None)
+        seen.append(dict(pc=st.pc, tags=tags_, index=index_, length=length, numc=numc, lcs=lcs))
+        rec = st.mem.o[sret.obj]
+        for off, (v, w) in {0: (NULL, 8), 8: (NULL, 8), 16: (BV(2 ** 63 - 1), 8), 24: (BV(2 ** 63 - 1), 8), 32: (BV(0, 8), 1)}.items():
+            rec.cells[sret.off + off] = (v, w)
+        return None
+    nc.m.eng.stubs['awkward_UnionArray8_64_validity'] = s_kernel
+    nc.m.eng.stubs['vf$slot%d' % nc.slot('13validityerrorERKNSt7__cxx1112basic_string')] = s_content_validity
+    fo, sz, al, fields = nc.layout_of('UNI', '_ZNK7awkward12UnionArrayOfIalE6lengthEv')
+    total = view + n
+    tdata = nc.m.array('uv_tags', ('i', 8), max(1, total), const=True)
+    idata = nc.m.array('uv_index', ('i', 64), max(1, total), const=True)
+    cells = nc.content_header('node', nc.vptr_of('N7awkward12UnionArrayOfIalEE', 'UNI'))
+    nc.index_cells(cells, fo[1], tdata, BV(view), BV(n), mangled_T='a')
+    nc.index_cells(cells, fo[2], idata, BV(view), BV(n))
+    bufc = {}
+    for i, cp in enumerate(ptrs):
+        bufc[16 * i] = (cp, 8); bufc[16 * i + 8] = (NULL, 8)
+    nc.m.record('node_contents', bufc, const=True)
+    nb = 16 * ncontents
+    cells.update({fo[3]: (Ptr('node_contents', 0), 8), fo[3] + 8: (Ptr('node_contents', nb), 8), fo[3] + 16: (Ptr('node_contents', nb), 8)})
+    this = nc.m.record('node', cells, const=True)
+    pc_ = {}
+    _string_cells(pc_, 0, 'path', 'layout')
+    path = nc.m.record('path', pc_, const=True)
+    nc.m.record('ret', {})
+    out = nc.m.call('_ZNK7awkward12UnionArrayOfIalE13validityerrorERKNSt7__cxx1112basic_stringIcSt11char_traitsIcESaIcEEE', [Ptr('ret', 0), this, path])
+    ln = out.mem.o['ret'].cells.get(8)
+    obls = [('the check does not raise', out.raised), ('the rule check is run', z3.Not(z3.Or([ob['pc'] for ob in seen] + [z3.BoolVal(False)])))]
+    bv64_ = lambda x: BV(x) if isinstance(x, int) else x
+    for ob in seen:
+        g = ob['pc']
+        for what, p, bufname in (('tags', ob['tags'], 'uv_tags'), ('index', ob['index'], 'uv_index')):
+            at = z3.Or([z3.And(gg, z3.BoolVal(q.obj == bufname), bv64_(q.off) == view) for gg, q in nodeh.ptr_cases(p)] + [z3.BoolVal(False)])
+            obls.append(('the %s checked are the window\'s: entries %d.. of their buffer' % (what, view), z3.And(g, z3.Not(at))))
+        obls.append(('as many entries are checked as the array has, against %d contents' % ncontents, z3.And(g, z3.Or(ob['length'] != n, ob['numc'] != ncontents))))
+        for k in range(ncontents):
+            obls.append(('content %d enters the check with its own length' % k, z3.And(g, (ob['lcs'][k] != lens[k]) if ob['lcs'][k] is not None else z3.BoolVal(True))))
+    for k in range(ncontents):
+        hit = [pc for pc, nm in asked if nm == names[k]]
+        obls.append(('content %d is asked about itself' % k, z3.And(z3.Not(out.raised), z3.Not(z3.Or(hit + [z3.BoolVal(False)])))))
+    if ln is not None:
+        obls.append(('nothing to complain about: an empty answer', z3.And(z3.Not(out.raised), ln[0] != 0)))
+    return mdischarge(nc.m, 'UnionArray8_64::validityerror %d entries, %d contents, tags / index windows starting at %d' % (n, ncontents, view), obls, [], replay=(lambda model, ent: _window_replay('UnionArray8_64', n, view)) if ncontents == 2 else None,
+                      extra=dict(bounds='%d entries and %d contents (case split), tags / index windows %d entries into their buffers; the rule kernel is a stub that finds nothing (its verdicts are the C11 kernel harnesses\' subject); every content answers "valid"' % (n, ncontents, view)))
 
 
 def jobs_window_validity(tier):
     q = [('ListArray64', 2, 1), ('IndexedArray64', 2, 1), ('IndexedOptionArray64', 2, 2)]
     if tier != 'quick':
         q += [(c, n_, v_) for c in ('ListArray64', 'IndexedArray64', 'IndexedOptionArray64') for n_, v_ in ((0, 0), (1, 0), (3, 2))]
-    return [(h_window_validity, a, 1800) for a in q]
+    uq = [(2, 1, 2)] if tier == 'quick' else [(2, 1, 2), (0, 0, 1), (3, 2, 3), (1, 0, 2)]
+    return [(h_window_validity, a, 1800) for a in q] + [(h_union_validity, a, 1800) for a in uq]
 
 
 @guard
